@@ -3141,6 +3141,13 @@ package goatlang
 //@   axioms TOKARR
 //@   requires wfC(c) && tok != nil && len(tok.Tokens) >= 1 && tokArr(arr(tok.Tokens)) && (forall j int :: 0 <= j && j < len(tok.Tokens) ==> tok.Tokens[j] != nil)
 //@   ensures#called len(res) >= 1 && res[len(res)-1].Code == codeCall
+//@ -- every operand of make that is parsed lands in the node (none is parsed and dropped: an
+//@ -- accepted-but-ignored capacity would change aliasing silently)
+//@ func makeNud
+//@   property C11
+//@   requires p != nil && t != nil
+//@   modifies *
+//@   ensures#kept calls("(*token).Append") == 1 + calls("(*parser).Expression") && result == t
 //@ -- a declaration that is parsed is handed on (also one that only names `_`: its initialiser runs)
 //@ func declareNud
 //@   property C15
